@@ -185,23 +185,25 @@ class CEvent:
         while not self.flag:
             if not self.S.yield_('blocked-wait ' + self.label, blocked_on=lambda: self.flag):
                 return self.flag
+        self._log('passed')          # the waiting thread has seen the flag set
         return True
 
 
 class ThreadProxy:
     """Stands for AsyncRunner._thread; the real thread is a scheduler-managed thread named 'runner'."""
 
-    def __init__(self, sched, target):
+    def __init__(self, sched, target, name='runner'):
         self.S = sched
         self.finished = False
         self.started = False
+        self.name = name
 
         def body():
             try:
                 target()
             finally:
                 self.finished = True
-        sched.spawn('runner', body, start_now=False)
+        sched.spawn(name, body, start_now=False)
 
     def is_alive(self):
         self.S.yield_('is_alive')
@@ -212,7 +214,7 @@ class ThreadProxy:
         if self.started:
             raise RuntimeError('threads can only be started once')
         self.started = True
-        self.S.start_thread('runner')
+        self.S.start_thread(self.name)
 
     def join(self, timeout=None):
         self.S.yield_('join')
